@@ -187,8 +187,26 @@ func c16MontAccExtreme(t *rapid.T, m *big.Int) (a, b *big.Int, ok bool) {
 
 // c16Residue draws a canonical residue mod m; ext reports whether an extreme limb was used.
 func c16Residue(t *rapid.T, label string, m *big.Int) (v *big.Int, ext bool) {
-	cls := gen.Pick(t, label+".class", "limbs", "limbs", "uniform", "near", "word-of-product")
+	cls := gen.Pick(t, label+".class", "limbs", "limbs", "uniform", "near", "word-of-product", "limbs", "uniform", "gcd-slow")
 	switch cls {
+	case "gcd-slow":
+		// a residue on which a Euclid-style (divstep) inversion needs far more iterations than on any random or word-structured
+		// value (vectors/divstep_slow.json), as the plain value, as the value whose Montgomery form it is, or as its inverse (the
+		// value an inversion is applied to a second time)
+		if v = gen.GcdSlow(t, label+".slow"); v == nil {
+			t.Fatalf("HARNESS: vectors/divstep_slow.json missing")
+		}
+		v.Mod(v, m)
+		switch gen.Pick(t, label+".slowform", "plain", "plain", "montgomery", "times-R", "negated") {
+		case "montgomery":
+			rinv := new(big.Int).ModInverse(new(big.Int).Lsh(big.NewInt(1), 256), m)
+			v.Mul(v, rinv).Mod(v, m)
+		case "times-R":
+			v.Lsh(v, 256).Mod(v, m)
+		case "negated":
+			v.Sub(m, v).Mod(v, m)
+		}
+		ext = true
 	case "word-of-product":
 		// one limb of the value SOLVED so that a chosen word of (limb x constant) is 2^64-1 / 0 / ...; the constant is what the
 		// conversion into Montgomery form multiplies by (2^512 mod m), the modulus itself (reduction step), or a random operand
